@@ -1,5 +1,6 @@
 import SvtVerif.Model.Av1Header
 import SvtVerif.Model.Tu
+import SvtVerif.Gen.ObuSites
 import Driver.Util
 /- `svtmodel obu`: stateful OBU / sequence header / frame header parser over a stream of packets.
 
@@ -10,10 +11,13 @@ import Driver.Util
      GM <allow_hp> <hasprev> [42 ints: PrevGmParams[1..7][0..5]] <hex>
                                  global_motion_params() of an inter frame on the given bits (parser unit test against
                                  the real read_global_motion_params) -> GM types=.. params=.. bits=..
+     SITE <k> <hdrhex> <payloadhex>   `ObuSite.layoutSite` of the k-th generated framing site (Gen/ObuSites.lean) on the given
+                                 header / payload bytes (`-` = empty) -> SITE k=.. name=.. consistent=.. len=.. hex=..
+     SITES                       -> one `SITEINFO k=.. name=.. types=.. moving=.. consistent=..` line per generated site
    Output lines
      HDR ok=.. err=.. nobu=.. types=..            (one per HDR line) followed by SEQ lines with pkt=-1
      pkt=<i> ok=.. err=.. nobu=.. types=.. td_first=.. seqhdr=.. seqhdr_same_as_first=.. seqhdr_same_as_api=..
-         shown=.. frames=.. tu=..                 (one per PKT line)
+         shown=.. frames=.. tu=.. sizes=..        (one per PKT line; sizes = OBU payload sizes, in order)
      SEQ pkt=<i> ...                              one per sequence header OBU in the packet, in order
      FRM pkt=<i> k=<j> ...                        one per frame header (OBU_FRAME / OBU_FRAME_HEADER), in order
 -/
@@ -132,12 +136,30 @@ def stepObu (pkt : Int) (isApi : Bool) (a : PktAcc) (o : Obu.Obu) : PktAcc :=
   else a
 
 def processObus (pkt : Int) (isApi : Bool) (st : ObuState) (bytes : List UInt8) :
-    PktAcc × Nat × List Nat × Bool :=
+    PktAcc × Nat × List Nat × Bool × List Nat :=
   match parseObus bytes with
-  | .error e => ({ st := st, err := some s!"obu:{e}" }, 0, [], false)
+  | .error e => ({ st := st, err := some s!"obu:{e}" }, 0, [], false, [])
   | .ok os =>
     let a := os.foldl (stepObu pkt isApi) { st := st }
-    (a, os.length, os.map (·.obuType), Tu.isTemporalUnit os)
+    (a, os.length, os.map (·.obuType), Tu.isTemporalUnit os, os.map (·.payload.length))
+
+def obuHexDigit (n : Nat) : Char := if n < 10 then Char.ofNat (48 + n) else Char.ofNat (87 + n)
+
+def obuToHex (bs : List UInt8) : String :=
+  String.ofList (bs.foldl (fun acc b => obuHexDigit (b.toNat % 16) :: obuHexDigit (b.toNat / 16) :: acc) []).reverse
+
+/-- `SITE <k> <hdrhex> <payloadhex>`. -/
+def siteOp (ws : List String) : String :=
+  match ws with
+  | [kS, hdrS, payS] =>
+    let k := kS.toNat?.getD 0
+    let dec := fun (s : String) => if s = "-" then some [] else parseHexBytes s
+    match Gen.ObuSites.sites[k]?, dec hdrS, dec payS with
+    | some s, some hdr, some pay =>
+      let out := ObuSite.layoutSite s hdr pay
+      s!"SITE k={k} name={s.name} consistent={if s.consistent then 1 else 0} len={out.length} hex={obuToHex out}"
+    | _, _, _ => "SITE bad-op"
+  | _ => "SITE bad-op"
 
 /-- `GM <allow_hp> <hasprev> [42 ints] <hex>`: global_motion_params() of an inter frame on the given bits. -/
 def gmOp (ws : List String) : String :=
@@ -178,7 +200,7 @@ def handleLine (st : ObuState) (line : String) : IO ObuState := do
     match parseHexBytes hex with
     | none => IO.println "HDR ok=0 err=bad-hex nobu=0 types="; return st
     | some bytes =>
-      let (a, n, types, _) := processObus (-1) true st bytes
+      let (a, n, types, _, _) := processObus (-1) true st bytes
       let err := match a.err with | some e => noSpaces e | none => "-"
       IO.println s!"HDR ok={if a.err.isNone then 1 else 0} err={err} nobu={n} types={commaList types} seqhdr={a.seqCount}"
       for l in a.lines.reverse do IO.println l
@@ -188,17 +210,23 @@ def handleLine (st : ObuState) (line : String) : IO ObuState := do
     match parseHexBytes hex with
     | none => IO.println s!"pkt={i} ok=0 err=bad-hex nobu=0 types= td_first=0 seqhdr=0 seqhdr_same_as_first=0 seqhdr_same_as_api=0 shown=0 frames=0"; return st
     | some bytes =>
-      let (a, n, types, tu) := processObus i false st bytes
+      let (a, n, types, tu, sizes) := processObus i false st bytes
       let err := match a.err with | some e => noSpaces e | none => "-"
       let tdFirst := match types with | t :: _ => t == OBU_TEMPORAL_DELIMITER | [] => false
       let b := fun (x : Bool) => if x then 1 else 0
       IO.println (s!"pkt={i} ok={b a.err.isNone} err={err} nobu={n} types={commaList types} td_first={b tdFirst} " ++
         s!"seqhdr={b (a.seqCount > 0)} seqhdr_same_as_first={b (a.seqCount > 0 && a.sameFirst)} " ++
         s!"seqhdr_same_as_api={b (a.seqCount > 0 && a.sameApi)} shown={a.shown} frames={a.frames} " ++
-        s!"nseq={a.seqCount} bytes={bytes.length} tu={b tu}")
+        s!"nseq={a.seqCount} bytes={bytes.length} tu={b tu} sizes={commaList sizes}")
       for l in a.lines.reverse do IO.println l
       return a.st
   | "GM" :: ws => IO.println (gmOp ws); return st
+  | "SITE" :: ws => IO.println (siteOp ws); return st
+  | ["SITES"] =>
+    let b := fun (x : Bool) => if x then 1 else 0
+    for (k, s) in (List.range Gen.ObuSites.sites.length).zip Gen.ObuSites.sites do
+      IO.println s!"SITEINFO k={k} name={s.name} types={commaList s.obuTypes} moving={b s.reserved.isSome} consistent={b s.consistent}"
+    return st
   | _ => IO.println "bad-op"; return st
 
 def obuMain : IO Unit := do
